@@ -317,6 +317,11 @@ def _run_lines(exe, lines, timeout, label, extra_env=None):
     hangs = 0
     n = len(lines)
     e = dict(os.environ)
+    # the compiler clones its instruction buffer on every emit; without these glibc settings a 64 KB
+    # function takes minutes to compile (mmap/munmap per clone), with them a fraction of a second
+    e.setdefault("MALLOC_MMAP_THRESHOLD_", "1073741824")
+    e.setdefault("MALLOC_TRIM_THRESHOLD_", "1073741824")
+    e.setdefault("MALLOC_TOP_PAD_", "67108864")
     if extra_env:
         e.update(extra_env)
     while idx < n:
